@@ -29,11 +29,12 @@ CHECKS = {
         "+-(gamma1-beta), boundary accepts, random bytes.",
    ref="DESIGN.md section 3 C03", technique="Coq proofs (strictness, gates) + differential execution with crafted hash-consistent near-misses"),
  "C04": dict(
-   text="PARTIAL proof + evaluation. Coq theorems: unseeded = seeded function of exactly the 32 drawn bytes; result independent of buffers; s1,s2 = ExpandS and A = ExpandA of the real SHAKE "
-        "streams with ranges; pk/sk containers = pkEncode/skEncode (C16); sizes. The ring-level identification of t = A s1 + s2 and byte equality with KeyGen_internal is not yet a theorem: "
-        "decided by executing crate = independent KeyGen (Python, hashlib) on ~36 000 seeds per run (volume, catches 1-in-2000 sampler/rounding events), = model on a subset, scripted and "
-        "recorded RNG, and the algebraic relation on decoded keys.",
-   ref="DESIGN.md section 3 C04", technique="Coq proofs of the components (partial) + differential execution vs independent KeyGen at volume"),
+   text="Coq theorem (six sets, EVERY 32-byte seed): whenever key generation returns, it returns byte for byte the key pair of the specification's KeyGen (Dilithium 3.1 / FIPS 204 "
+        "KeyGen_internal incl. the k,l domain separation; transcribed in PKeygen.v with NTT as evaluation at the roots and t characterised by NTT(t - s2) = A^ o NTT(s1)), with the standard "
+        "sizes, drawing nothing; the specification is a function of the seed; unseeded generation is that function of the 32 bytes drawn; same rho, tr = H(pk), t = A s1 + s2 in R_q with s "
+        "within +-eta; key generation never panics. Not provable: termination of the rejection samplers (relational spec, model fuel). Tied to the six sign/*.rs and API files by executing "
+        "crate = independent KeyGen (Python, hashlib) on ~36 000 seeds per run, = model on a subset, scripted/recorded RNG, algebraic relation on decoded keys.",
+   ref="DESIGN.md section 3 C04 and 12.2", technique="Coq proof (model KeyGen = specification) + differential execution vs independent KeyGen at volume"),
  "C05": dict(
    text="PARTIAL proof + evaluation. Coq theorems: randomness enters only as the drawn bytes (rnd in rho''=H(K||rnd||mu) for ML-DSA, rho' itself for Dilithium), deterministic signing draws nothing, "
         "buffer-independent, API signs the framed M', mask = ExpandMask(rho'', L*kappa+i), attempts run in counter order and the first one passing the four tests in the specification's order is "
@@ -55,7 +56,7 @@ CHECKS = {
  "C08": dict(
    text="Coq theorem: for the six sets, ANY byte string as signature (any length), any message, any context, any public key of the right length, verification never panics (no overflow, no "
         "out-of-bounds) and returns a boolean — incl. the no-overflow chain through the NTT pipeline with ranges at every step and totality of the hint decoder on adversarial counters; API "
-        "verifiers likewise. Key generation and signing no-overflow are not yet theorems: both builds (overflow-checked and release) are executed on adversarial signatures (structured counters, "
+        "verifiers likewise; key generation from any seed never panics. Signing no-overflow is not yet a theorem: both builds (overflow-checked and release) are executed on adversarial signatures (structured counters, "
         "extreme z/t1/pk), sampler refill paths through the XOF tap, and 360 000 honest key generations per run.",
    ref="DESIGN.md section 3 C08", technique="Coq proof (verify total) + checked-vs-release differential execution + volume"),
  "C09": dict(
